@@ -12,6 +12,7 @@ import (
 	"os"
 	"time"
 
+	"github.com/absfs/absfs"
 	"github.com/absfs/absnfs/internal/verif/recfs"
 	"github.com/absfs/absnfs/internal/verif/vtime"
 	"github.com/absfs/absnfs/internal/verif/wire"
@@ -218,3 +219,6 @@ func unixToGoMode(m uint32) os.FileMode {
 	}
 	return fm
 }
+
+// absfsFile is the element type of FileHandleMap.handles.
+type absfsFile = absfs.File
